@@ -849,6 +849,9 @@ impl<'c, E: LElem, C: Coll<E>> LInterp<'c, E, C> {
 
     pub fn exec(&mut self, op: &Op) -> Result<(), Bad> {
         let a = op.a;
+        if self.model.len() > self.case.h_or("size_cap", 3000) as usize && matches!(op.code, ops::FILL_TO_CAPACITY | ops::RESERVE | ops::WITH_CAPACITY) {
+            return Ok(());
+        }
         match op.code {
             ops::INSERT => {
                 let id = self.kid(a[0]);
@@ -1054,7 +1057,7 @@ impl<'c, E: LElem, C: Coll<E>> LInterp<'c, E, C> {
         let r = match r {
             Ok(r) => r,
             Err(p) => {
-                std::mem::forget(p);
+                drop(p);
                 let msg = world::last_panic_message().unwrap_or_default();
                 bad!("C12", "try_reserve-panicked", "{} of {}: try_reserve({additional}) panicked: {msg}", C::KIND, E::name());
             }
@@ -1167,7 +1170,7 @@ impl<'c, E: LElem, C: Coll<E>> LInterp<'c, E, C> {
         match r {
             Err(payload) => {
                 let msg = world::last_panic_message().unwrap_or_else(|| "<no message>".into());
-                std::mem::forget(payload);
+                drop(payload);
                 return Err(Violation { property: "C02", kind: "unexpected-panic".into(), step, detail: format!("{} of {}: operation panicked: {msg}", C::KIND, E::name()) });
             }
             Ok(Err(b)) => return Err(self.to_violation(step, b)),
@@ -1186,7 +1189,7 @@ impl<'c, E: LElem, C: Coll<E>> LInterp<'c, E, C> {
         out.labels = labels;
         let r = catch_unwind(AssertUnwindSafe(move || drop(coll)));
         if let Err(p) = r {
-            std::mem::forget(p);
+            drop(p);
             let msg = world::last_panic_message().unwrap_or_default();
             return (out, Some(Violation { property: "C02", kind: "unexpected-panic".into(), step, detail: format!("dropping the collection panicked: {msg}") }));
         }
